@@ -198,7 +198,32 @@ class Ctx:
         return {"exit": rc, "summaries": summaries, "violations": viols, "inconclusive": inconc,
                 "stderr_tail": _tail(err, 800)}
 
+    @staticmethod
+    def _sigq():
+        try:
+            for l in open("/proc/self/status"):
+                if l.startswith("SigQ:"):
+                    a, b = l[5:].strip().split("/")
+                    return int(a), int(b)
+        except Exception:
+            pass
+        return 0, 1
+
     def _run(self, cmd, st, env_extra):
+        # The user's pending-signal quota is shared by every process of this uid. When another process exhausts it,
+        # the kernel delivers signals without siginfo and refuses sigqueue: no verdict of a signal workload can be
+        # trusted then. Sample it around the step.
+        q0 = self._sigq()
+        res = self._run_inner(cmd, st, env_extra)
+        q1 = self._sigq()
+        worst = max(q0[0] / max(q0[1], 1), q1[0] / max(q1[1], 1))
+        if worst > 0.5 and (res["violations"] or res["exit"] not in (0,)):
+            res["violations"] = []
+            res["inconclusive"] = "environment: pending-signal quota of the user at %d%% (SigQ %d/%d -> %d/%d), another process is flooding it" % (
+                int(worst * 100), q0[0], q0[1], q1[0], q1[1])
+        return res
+
+    def _run_inner(self, cmd, st, env_extra):
         timeout = st.get("timeout", 300)
         timed_out = False
         try:
